@@ -1,6 +1,6 @@
 #!/usr/bin/env python3
 """seeded_table.py — markdown table of the seeded breaking changes and what the registered checks said about each (from seeded/*/meta.json, README.md, last_run.json)"""
-import json, os, re
+import json, os, re, sys
 V = os.path.dirname(os.path.dirname(os.path.abspath(__file__)))
 S = os.path.join(V, "seeded")
 rows = []
@@ -31,3 +31,18 @@ for s in sorted(os.listdir(S)):
 print("| seed | change (needs something specific to manifest: see seeded/<id>/README.md) | quick check on /repo HEAD + patch |")
 print("|---|---|---|")
 print("\n".join(rows))
+
+
+def update_design():
+    """replace the part of DESIGN.md between SEEDED_TABLE_BEGIN and SEEDED_TABLE_END by the current table"""
+    import io, contextlib
+    p = os.path.join(V, "DESIGN.md")
+    s = open(p).read()
+    a, b = s.index("<!-- SEEDED_TABLE_BEGIN -->"), s.index("<!-- SEEDED_TABLE_END -->")
+    head = "| seed | change (needs something specific to manifest: see seeded/<id>/README.md) | quick check on /repo HEAD + patch |\n|---|---|---|\n"
+    s = s[:a] + "<!-- SEEDED_TABLE_BEGIN -->\n" + head + "\n".join(rows) + "\n" + s[b:]
+    open(p, "w").write(s)
+
+
+if "--update-design" in sys.argv:
+    update_design()
